@@ -337,6 +337,8 @@ func c04RawServer(version string) vs.Verdict {
 	ctx := context.Background()
 	dup := vs.Choose("duplicate-request", 3, 0) // 0: none, 1: reuses the id of call 1, 2: of call 2
 	target := 1 + vs.Choose("cancel-target", 2, 0)
+	// the two calls carry the ids 1 and 2, or two neighbouring ids beyond 2^53 (exact int64 ids)
+	ids := [][]string{{"", "1", "2"}, {"", "9007199254740992", "9007199254740993"}}[vs.Choose("id-range", 2, 0)]
 	ctl := vs.NewController()
 	gates := map[int]*vs.Gate{1: ctl.Gate("1"), 2: ctl.Gate("2")}
 	vs.Quiet(true)
@@ -384,12 +386,12 @@ func c04RawServer(version string) vs.Verdict {
 	send(`{"jsonrpc":"2.0","method":"notifications/initialized","params":{}}`)
 	vs.WaitIdle()
 	vs.Quiet(false)
-	send(`{"jsonrpc":"2.0","id":1,"method":"tools/call","params":{"name":"t","arguments":{"k":1}}}`)
-	send(`{"jsonrpc":"2.0","id":2,"method":"tools/call","params":{"name":"t","arguments":{"k":2}}}`)
+	send(`{"jsonrpc":"2.0","id":` + ids[1] + `,"method":"tools/call","params":{"name":"t","arguments":{"k":1}}}`)
+	send(`{"jsonrpc":"2.0","id":` + ids[2] + `,"method":"tools/call","params":{"name":"t","arguments":{"k":2}}}`)
 	if dup > 0 {
-		send(fmt.Sprintf(`{"jsonrpc":"2.0","id":%d,"method":"ping"}`, dup))
+		send(fmt.Sprintf(`{"jsonrpc":"2.0","id":%s,"method":"ping"}`, ids[dup]))
 	}
-	send(fmt.Sprintf(`{"jsonrpc":"2.0","method":"notifications/cancelled","params":{"requestId":%d}}`, target))
+	send(fmt.Sprintf(`{"jsonrpc":"2.0","method":"notifications/cancelled","params":{"requestId":%s}}`, ids[target]))
 	// the gates of handlers still parked are opened by the controller once nothing else can run
 	vs.WaitIdle()
 	ctl.Stop()
@@ -418,9 +420,9 @@ func c04RawServer(version string) vs.Verdict {
 			answers[string(m.ID)]++
 		}
 	}
-	for _, id := range []string{"1", "2"} {
+	for k, id := range ids[1:] {
 		want := 1
-		if fmt.Sprint(dup) == id {
+		if dup == k+1 {
 			want = 2 // the refused duplicate may be answered under the id it carried
 		}
 		if answers[id] < 1 || answers[id] > want {
@@ -430,7 +432,7 @@ func c04RawServer(version string) vs.Verdict {
 	if answers[`"final"`] != 1 {
 		f.failf("session-unusable", "the final ping received %d responses: %v", answers[`"final"`], lines)
 	}
-	return f.verdict(fmt.Sprintf("dup=%d target=%d %s", dup, target, strings.Join(evs, ",")))
+	return f.verdict(fmt.Sprintf("ids=%s dup=%d target=%d %s", ids[1], dup, target, strings.Join(evs, ",")))
 }
 
 func TestVerifC04(t *testing.T) {
